@@ -3,7 +3,7 @@
    formula's vocabulary mentions (the remaining atoms and fluents keep a random base value).
    The states are NOT sent one by one: both sides enumerate them from the same code (n = 0 .. 2^k * B^m - 1). *)
 From Coq Require Import List Ascii String Bool Arith NArith PrimFloat.
-From Verif Require Import Base.Result Base.Str Base.Sexp Base.PyDict Model.Types Model.Domain Model.Exec
+From Verif Require Import Base.Result Base.Str Base.Sexp Base.PyDict Model.Types Model.Domain Model.Exec Model.KeyedState
   Spec.Pddl Spec.Grammar Spec.Subst Corr.Common Corr.Core.
 Import ListNotations.
 Open Scope string_scope.
@@ -119,9 +119,73 @@ Definition explain (c : scase) :=
                      (seq 0 (String.length (r_ans r)))))
       (sc_rows c).
 
-(* one shard may mix generated worlds (Corr.Core) and scope cases *)
-Inductive anycase := AW (w : world) | AS (c : scase).
+(* ---------- round 3: worlds with functions of arity >= 3 (finding D07 as it shows in C02) ----------
+   The model side evaluates Model.Exec.is_applicable on the library's VIEW of the state (Model.KeyedState.code_state: every
+   fluent has the value stored last under its name-keyed text); the spec side judges on the state as written.
+   Known class, decided on the input: the instantiated precondition reads a fluent application of arity >= 3 whose
+   arguments repeat a name (inside a quantifier: any application of arity >= 3). *)
+Fixpoint nexp_collides (sg : env) (under : bool) (n : nexp) : bool :=
+  match n with
+  | NNum _ => false
+  | NFl _ args => Nat.leb 3 (List.length args) && (under || repeats (map (subst sg) args))
+  | NBin _ a b => nexp_collides sg under a || nexp_collides sg under b
+  end.
+Fixpoint form_collides (sg : env) (under : bool) (f : form) : bool :=
+  match f with
+  | FCmp _ l r => nexp_collides sg under l || nexp_collides sg under r
+  | FAnd l | FOr l => existsb (form_collides sg under) l
+  | FForall v _ b => form_collides (unbind v sg) true b
+  | _ => false
+  end.
+
+Definition keyed_probe (p : probe) : probe :=
+  {| p_action := p_action p; p_args := p_args p; p_state := code_state (p_state p); p_app := p_app p;
+     p_order := p_order p; p_uorder := p_uorder p; p_succ := p_succ p |}.
+
+Definition keyed_probe_verdicts (w : world) (p : probe) : list verdict :=
+  let md := model_domain w in
+  let sd := spec_domain w in
+  let m_app := match md with Ok d => model_app w d (keyed_probe p) | Err _ => Raised end in
+  let ok_app :=
+    match sd with
+    | Some d => match spec_answer w d p with
+                | Some o => obs_eqb Bool.eqb o (p_app p)
+                | None => obs_raised (p_app p) end
+    | None => obs_raised (p_app p)
+    end in
+  let known :=
+    match sd with
+    | Some d => match find_action d (p_action p) with
+                | Some a => form_collides (bind_args a (p_args p)) false (a_pre a)
+                | None => false end
+    | None => false
+    end in
+  [ {| v_agree := obs_eqb Bool.eqb m_app (p_app p); v_ok := ok_app; v_known := known |};
+    {| v_agree := true; v_ok := true; v_known := false |} ].          (* the successor is C03's; keeps the unit layout of judge_world *)
+
+Definition judge_keyed_world (w : world) : list verdict :=
+  match w_parsed w with
+  | Raised => [world_verdict w]
+  | Returned _ => world_verdict w :: flat_map (keyed_probe_verdicts w) (w_probes w)
+  end.
+
+Definition explain_keyed (w : world) :=
+  map (fun p => (p_action p, p_args p, code_state (p_state p),
+                 match model_domain w with Ok d => model_app w d (keyed_probe p) | Err _ => Raised end,
+                 match spec_domain w with Some d => spec_answer w d p | None => None end))
+      (w_probes w).
+
+(* one shard may mix generated worlds (Corr.Core), keyed worlds and scope cases *)
+Inductive anycase := AW (w : world) | AS (c : scase) | AK (w : world).
 Definition run_any (l : list anycase) : string :=
-  t2s (map verdict_char (flat_map (fun a => match a with AW w => judge_world w | AS c => judge_scase c end) l)).
+  t2s (map verdict_char (flat_map (fun a => match a with
+                                            | AW w => judge_world w
+                                            | AS c => judge_scase c
+                                            | AK w => judge_keyed_world w
+                                            end) l)).
 Definition explain_any (a : anycase) :=
-  match a with AW w => (Some (Core.explain w), None) | AS c => (None, Some (explain c)) end.
+  match a with
+  | AW w => (Some (Core.explain w), None, None)
+  | AS c => (None, Some (explain c), None)
+  | AK w => (None, None, Some (explain_keyed w))
+  end.
